@@ -98,8 +98,17 @@ def span_of(ctx_start, ctx_end):
             repr(ctx_end).rsplit(":", 2)[1] + ":" + repr(ctx_end).rsplit(":", 2)[2], ctx_end.filename]
 
 
+def _resolve_fn(name):
+    """'module:function' (module importable from tools/) or a function of this module."""
+    if ":" in name:
+        import importlib
+        mod, fn = name.split(":", 1)
+        return getattr(importlib.import_module(mod), fn)
+    return globals()[name]
+
+
 def assemble(files, charset="bk", fs=None, want_trace=False, want_symbols=False, want_listing=False,
-             want_emitted=False, watchdog=None, reset=True):
+             want_emitted=False, watchdog=None, reset=True, post=None):
     """files: list of (filename, text). fs: dict path -> str/bytes for include/insert_file.
 
     Returns dict(outcome, base, code(hex), diags=[(sev, ident, spans)], crash=..., trace=...).
@@ -134,6 +143,9 @@ def assemble(files, charset="bk", fs=None, want_trace=False, want_symbols=False,
                 parsed = [parser.parse(fn, text) for fn, text in files]
                 comp = compiler.Compiler(output_charset=charset)
                 base, code = comp.compile_and_link_files(parsed)
+                if post is not None:
+                    # post-processing that may force deferred values runs inside the report handler
+                    res["post"] = _resolve_fn(post)(comp, base, code, parsed)
             signal.setitimer(signal.ITIMER_REAL, 0)
             res["outcome"] = "ok"
             res["base"] = base
@@ -188,7 +200,7 @@ def assemble(files, charset="bk", fs=None, want_trace=False, want_symbols=False,
 def _run_one(args):
     fn, a, k = args
     try:
-        return globals()[fn](*a, **k)
+        return _resolve_fn(fn)(*a, **k)
     except BaseException as ex:  # harness-level failure: surface it, never hide
         return {"outcome": "harness-error", "error": type(ex).__name__ + ": " + str(ex)[:300]}
 
